@@ -6,6 +6,7 @@ mod ops;
 mod gen_ops;
 mod arena;
 mod visit;
+mod entities;
 
 fn main() {
     let args: Vec<String> = std::env::args().collect();
@@ -22,6 +23,7 @@ fn main() {
         "visit" => visit::visit(&args[2..]),
         "visit-hex" => visit::visit_hex(&args[2]),
         "visit-cf" => visit::visit_cf(&args[2..]),
+        "entities" => entities::entities(&args[2..]),
         other => {
             eprintln!("unknown subcommand {other}");
             exit(2)
